@@ -125,7 +125,7 @@ void h_zero_chunk(void) {
     V_ASSERT(!r || in.err0 > 0 || !in_ext || (g_ww_hit == in.ww_hit0 + 1 && g_ww_val == 0), "C05,C08.zero_chunk.every_byte_of_the_extent_is_zeroed");
     V_COVER(r && in.err0 == 0 && c->comp_length > 2 * BUF_SIZE + 1 && in_ext && (in.ww_off - lo) > BUF_SIZE);
     V_COVER(!r && in.err0 == 0 && g_ww_hit == in.ww_hit0 + 1);
-    V_COVER(r && in.err0 > 0); V_COVER(r && c->comp_length == 0);
+    V_COVER(!r && in.err0 > 0);   /* since fix c4d749c a context in error is refused */ V_COVER(r && c->comp_length == 0);
 }
 
 
